@@ -26,7 +26,7 @@ CHECKS["C20"] = {
 CHECKS["C16"] = {
     "text": "Proof by Kani/CBMC on the real crates/dvi code (scratch copy + appended harness module), loop-free per path and complete over the operand domain: for every fixed-size operation form (set_char_N/set1-4/put1-4, set/put_rule, nop, bop, eop, push, pop, right1-4, w0-4/x0-4/y0-4/z0-4, down1-4, fnt_num_N/fnt1-4, post) decode(encode(op) ++ suffix) == (op, suffix) for ALL operand values, with the minimal operand width; the decoder is total (returns Ok or the documented Truncated/InvalidOpCode error, never panics, rest is a suffix of the input) for all 256 opcodes with a fully symbolic tail at every input length up to the payload size. String/blob forms (xxx, fnt_def, pre, post_post) are bounded stand-ins and are reported separately, not counted as proved.",
     "design_ref": "DESIGN.md §5 C16",
-    "note": "Not yet under contract: Values::update / VarRemover (position preservation). Bounded only: Extension/DefineFont/Preamble/EndPostamble forms (length bounds in evidence.bounded_standins). Opcode and slice length are re-materialised as constants per path so CBMC prunes the 256-arm decoder; every (opcode,length) pair a form can produce is enumerated and an assertion checks that one of them matched.",
+    "note": "Values::update == an independent step function written from the DVI standard and VarRemover::next (each output operation has the same effect on h, v, pending character widths, font and stack, never uses w/x/y/z, and leaves every other operation unchanged) are proved in Verus under the assumption that positions stay within 32 bits. Bounded only: Extension/DefineFont/Preamble/EndPostamble forms (length bounds in evidence.bounded_standins). Opcode and slice length are re-materialised as constants per path so CBMC prunes the 256-arm decoder; every (opcode,length) pair a form can produce is enumerated and an assertion checks that one of them matched.",
     "technique": "Kani/CBMC bit-precise harnesses, concrete discriminant x fully symbolic operands (loop-free, complete)",
 }
 
